@@ -34,6 +34,12 @@ PROOF_FILES = [f for f in ['theories/Snapshot.v', 'proofs/C18Proofs.v'] if os.pa
 WALL = [0]
 
 
+def probe():
+    """a picklable callable of the initial context (module-level function): the same code text `probe()` is used both as a
+    guard and as an action in the generated charts"""
+    return True
+
+
 def add_nested_state(sc, rng):
     """a nested mutable context value, changed in place by entry code and read through __old__ by contracts"""
     sc._preamble = (sc.preamble or '') + '\nh = [[0]]'
@@ -42,6 +48,17 @@ def add_nested_state(sc, rng):
         s.on_entry = ((s.on_entry + '\n') if s.on_entry else '') + 'h[0].append(x)'
         if rng.random() < 0.8:
             s.invariants.append('len(h[0]) >= len(__old__.h[0]) and len(h) == len(__old__.h)')
+    ts = list(sc._transitions)
+    rng.shuffle(ts)
+    # the SAME code text as a guard and as executed code
+    for t in ts[:3]:
+        if t.event is not None:
+            t.guard = 'probe()'
+    for t in ts[2:5]:
+        t.action = 'probe()'
+    for st in rng.sample(owners, min(len(owners), 2)):
+        st.on_exit = 'probe()'
+        st.on_entry = 'probe()' if rng.random() < 0.5 else st.on_entry
     for t in sc._transitions:
         if t.action and rng.random() < 0.3:
             t.action = t.action + '\nh[0].append(y)'
@@ -137,7 +154,7 @@ def main(tier, seed):
 
             def fresh():
                 WALL[0] = 0
-                s = sx.Scenario(pickle.loads(blob), n_rec=0, picklable=True)
+                s = sx.Scenario(pickle.loads(blob), n_rec=0, picklable=True, initial_context={'probe': probe})
                 if running:
                     s.clock.start()
                 return s
